@@ -473,7 +473,7 @@ bool TMCG_SecretKey::decrypt
 	if (TMCG_SAEP_S0 >= (mpz_sizeinbase(m, 2UL) / 32))
 		return false;
 	
-	unsigned char *yy = new unsigned char[(2*rabin_s)+1024];
+	unsigned char *yy = new unsigned char[(2*rabin_s)+1024](); // zeroed: mpz_export writes nothing for 0
 	unsigned char *r = new unsigned char[rabin_s1];
 	unsigned char *Mt = new unsigned char[rabin_s2];
 	unsigned char *g12 = new unsigned char[rabin_s2];
